@@ -145,8 +145,10 @@ class Workspace:
         return e
 
     def build(self, target=None, node=None, jobs=None, db=True, fs="default", record=False, pretend=False,
-              buildfile="build.llbuild", timeout=120, exe=None):
+              buildfile="build.llbuild", timeout=120, exe=None, keep_going=False):
         cmd = [exe or BSX, "--chdir", self.dir, "-f", buildfile]
+        if keep_going:
+            cmd += ["--keep-going"]
         cmd += ["--db", "build.db"] if db else ["--no-db"]
         cmd += ["--serial"] if not jobs else ["-j", str(jobs)]
         if fs != "default":
